@@ -1,0 +1,13 @@
+//go:build verif
+
+// Contracts for package common, checked by /verif/govc (contract-based deductive
+// verification). This file is comment-only: with the build tag off it is not
+// compiled, with the tag on it adds no code.
+package common
+
+//@ func AddRecordLayer
+//@   ensures len: len(ret0) == len(input) + 5
+//@   ensures hdr: ret0[0] == typ && ret0[1] == byte(ver >> 8) && ret0[2] == byte(ver)
+//@   ensures lenfield: len(input) < 65536 ==> int(ret0[3])*256 + int(ret0[4]) == len(input)
+//@   ensures body: forall i int :: 0 <= i && i < len(input) ==> ret0[5+i] == input[i]
+//@   ensures fresh: fresh(ret0)
